@@ -7,6 +7,9 @@ RULE = ("seeded pairs (file tree F, runtime tree R) derived from a common univer
         "new content / extended on either side: disjoint, nested, overlapping, deeper either side, conflicting root metadata); "
         "save F, then 1-3 appends of R in mode a/ao with every kind of target: whole root, inner node x 3 tree options, "
         "with emdpath (node itself, parent, ancestor), foreign node / root under an emdpath; file raw-walked after every step; "
+        "40 % of the universes hold a planted pair of siblings whose names are related (`x` / `x2`, `x` / `_tmp_x`: a proper prefix, "
+        "the writer's scratch name) and, when such a pair exists, a quarter of the emdpath appends address exactly it; the Root "
+        "itself is saved under an emdpath in 15 % of the emdpath appends; "
         "non-trivial = at least one node common to F and R and one node only in R; distinct by recipe hash")
 
 
